@@ -1,0 +1,64 @@
+#pragma once
+
+///
+/// \brief instrumentation points used by the external verification harness.
+///
+/// NB: everything in this header compiles to nothing unless NANO_VERIF is defined.
+///
+#ifdef NANO_VERIF
+
+#include <atomic>
+#include <cstdint>
+
+namespace nano::verif
+{
+using event_hook_t = void (*)(int kind, const void* object, std::uint64_t a, std::uint64_t b);
+using sched_hook_t = void (*)(int point);
+
+inline std::atomic<event_hook_t> g_event_hook{nullptr};
+inline std::atomic<sched_hook_t> g_sched_hook{nullptr};
+
+inline void event(const int kind, const void* object = nullptr, const std::uint64_t a = 0U, const std::uint64_t b = 0U)
+{
+    if (const auto hook = g_event_hook.load(std::memory_order_acquire); hook != nullptr)
+    {
+        hook(kind, object, a, b);
+    }
+}
+
+inline void sched_point(const int point)
+{
+    if (const auto hook = g_sched_hook.load(std::memory_order_acquire); hook != nullptr)
+    {
+        hook(point);
+    }
+}
+
+enum : int
+{
+    ev_push_one = 1,    ///< queue_t::enqueue: task pushed (under the lock)
+    ev_notify_one,      ///< queue_t::enqueue: notify_one done
+    ev_map_inline,      ///< pool_t::map: fast path taken (a = number of tasks)
+    ev_push_all,        ///< pool_t::map: all tasks pushed (under the lock, a = number of tasks)
+    ev_notify_all,      ///< pool_t::map: notify_all done
+    ev_map_end,         ///< pool_t::map: about to return normally
+    ev_future_visited,  ///< section_t::block: a future was waited for (a = raise)
+    ev_worker_pop,      ///< worker_t: task popped (under the lock, a = tnum)
+    ev_worker_done,     ///< worker_t: task returned (a = tnum)
+    ev_worker_exit,     ///< worker_t: stop seen (under the lock, a = tnum)
+    ev_stop,            ///< ~pool_t: stop flag set (under the lock)
+    ev_notify_stop,     ///< ~pool_t: notify_all done
+    ev_joined,          ///< ~pool_t: all workers joined
+    ev_solver_done = 32 ///< solver_t::done (a = iter_ok, b = converged)
+};
+} // namespace nano::verif
+
+#define NANO_VERIF_EVENT(...) ::nano::verif::event(__VA_ARGS__)
+#define NANO_VERIF_SCHED(point) ::nano::verif::sched_point(point)
+
+#else
+
+#define NANO_VERIF_EVENT(...) ((void)0)
+#define NANO_VERIF_SCHED(point) ((void)0)
+
+#endif
